@@ -308,16 +308,21 @@ fn check_depth_boundary(g: &mut Gen, ctx: &mut Ctx) -> CaseResult {
     ctx.classf(format!("depth-boundary:{}", d));
     ctx.nontrivial(hash_bytes(&[t.name.as_bytes(), &b].concat()));
     ctx.sample_with(|| format!("{}{} with a value nested {} deep: {}", t.name, if tagged { " (tagged)" } else { "" }, d, hex_trunc(&b, 24)));
+    depth_differentials(t, &b, d, ctx)
+}
+
+fn depth_differentials(t: &TypeOps, b: &[u8], d: usize, ctx: &mut Ctx) -> CaseResult {
+    let _ = &ctx;
     // only the differentials matter here (prefix/suffix work on such inputs is quadratic)
-    let got = (t.dec)(&b);
-    let via = match parse_one(&b) {
+    let got = (t.dec)(b);
+    let via = match parse_one(b) {
         Ok(v) => (t.dec_value)(v).map_err(|_| ()),
         Err(()) => Err(()),
     };
     ensure!(got.is_ok() == via.is_ok(), "{}: from_slice {} but parse-then-convert {} for a value nested {} deep", t.name, if got.is_ok() { "accepts" } else { "rejects" }, if via.is_ok() { "accepts" } else { "rejects" }, d);
     if let (Some(tag), Some(dec_tagged)) = (t.tag, t.dec_tagged) {
-        let got_t = dec_tagged(&b);
-        let via_t = match parse_one(&b) {
+        let got_t = dec_tagged(b);
+        let via_t = match parse_one(b) {
             Ok(Value::Tag(n, inner)) if n == tag => (t.dec_value)(*inner).map_err(|_| ()),
             _ => Err(()),
         };
@@ -325,7 +330,7 @@ fn check_depth_boundary(g: &mut Gen, ctx: &mut Ctx) -> CaseResult {
     }
     // encode direction on what was accepted: to_vec == serialise(to_cbor_value), also at the limit
     if got.is_ok() {
-        if let (Some(enc), Some(val)) = ((t.recode)(&b), (t.to_value)(&b)) {
+        if let (Some(enc), Some(val)) = ((t.recode)(b), (t.to_value)(b)) {
             let via = val.map_err(|e| format!("{:?}", e)).and_then(|v| serialise(&v).map_err(|_| "serialise failed".to_string()));
             match (enc, via) {
                 (Ok(x), Ok(y)) => ensure!(x == y, "{}: to_vec differs from serialising to_cbor_value for a value nested {} deep", t.name, d),
@@ -335,8 +340,8 @@ fn check_depth_boundary(g: &mut Gen, ctx: &mut Ctx) -> CaseResult {
         }
     }
     if let (Some(rt), Some(dec_tagged)) = (t.recode_tagged, t.dec_tagged) {
-        if dec_tagged(&b).is_ok() {
-            if let Some(r) = rt(&b) {
+        if dec_tagged(b).is_ok() {
+            if let Some(r) = rt(b) {
                 ensure!(r.is_ok(), "{}: a value accepted through the tagged entry point (nested {} deep) fails to encode tagged: {:?}", t.name, d, r.err());
             }
         }
@@ -344,12 +349,42 @@ fn check_depth_boundary(g: &mut Gen, ctx: &mut Ctx) -> CaseResult {
     Ok(())
 }
 
+/// The same differentials with the limit-depth value planted at a position drawn from a generated
+/// valid item of the type: an extra of any header / key / claims set at any nesting level (body,
+/// signer, recipient, counter-signature, key inside a key set, protected content), so that every
+/// place where the crate might start a parse of its own is probed at the parser's limit.
+fn check_depth_boundary_planted(g: &mut Gen, ctx: &mut Ctx) -> CaseResult {
+    let types = all_types();
+    let t = &types[g.below(types.len())];
+    let mut item = gen_for_shape(g, t.shape, &mut Faults::none());
+    let tagged = t.tag.is_some() && g.bool();
+    let total = 252 + g.below(8);
+    let (p, d) = match plant_deep(&mut item, g, total, tagged as usize) {
+        Some(x) => x,
+        None => return check_depth_boundary(g, ctx),
+    };
+    let body = if g.bool() { plain(&item).0 } else { styled(&item, g, StyleOpts::ALL).0 };
+    let b = if let (true, Some(tag)) = (tagged, t.tag) {
+        let mut x = vec![];
+        crate::cbor::head(&mut x, 6, tag);
+        x.extend_from_slice(&body);
+        x
+    } else {
+        body
+    };
+    ctx.classf(format!("depth-boundary-planted:{}:total-{}", t.name, total));
+    ctx.classf(format!("depth-boundary-planted:map-at-depth-{}", p.min(9)));
+    ctx.nontrivial(hash_bytes(&[t.name.as_bytes(), &b].concat()));
+    ctx.sample_with(|| format!("{}{}: value nested {} deep planted in a map at depth {}: {}", t.name, if tagged { " (tagged)" } else { "" }, d, p, hex_trunc(&b, 24)));
+    depth_differentials(t, &b, d, ctx)
+}
+
 fn case(g: &mut Gen, ctx: &mut Ctx) -> CaseResult {
     if g.ratio(1, 6) {
         return check_inside_protected(g, ctx);
     }
     if g.ratio(1, 12) {
-        return check_depth_boundary(g, ctx);
+        return if g.bool() { check_depth_boundary(g, ctx) } else { check_depth_boundary_planted(g, ctx) };
     }
     if g.ratio(1, 12) {
         return check_decoded_protected(g, ctx);
